@@ -294,3 +294,77 @@ package loader
 //@   ensures normal && lex.lexEventType == lexeme.ObjectKeyEnd ==> s.ruleNameLex == lex
 //@   ensures normal && lex.lexEventType == lexeme.ObjectKeyEnd && old(beq(ruleNameText(lexBytes(lex)), "enum")) ==> boundis(s.stateFunc, orRuleSetLoader, "enumValueBegin")
 //@   ensures normal && lex.lexEventType == lexeme.ObjectKeyEnd && !old(beq(ruleNameText(lexBytes(lex)), "enum")) ==> boundis(s.stateFunc, orRuleSetLoader, "valueBegin")
+
+// C08: a rule needs exactly one example node on its line; `or`, `enum` and `allOf`
+// (in any spelling of the name) take a structured value, every other rule a literal
+//@ func (*ruleLoader).ruleValue(lex)
+//@   props C08 C13
+//@   requires rl != nil && isNode(rl.node) && lexWF(rl.ruleNameLex) && rl.ruleNameLex.end + 1 - rl.ruleNameLex.begin <= 1000000000000
+//@   maypanic
+//@   modifies *
+//@   ensures old(rl.nodesPerCurrentLineCount) == 0 ==> panics && typeis(pv, errors.ErrorCode) && unbox(pv, errors.ErrorCode) == errors.ErrIncorrectRuleWithoutExample
+//@   ensures old(rl.nodesPerCurrentLineCount) > 1 ==> panics && typeis(pv, errors.ErrorCode) && unbox(pv, errors.ErrorCode) == errors.ErrIncorrectRuleForSeveralNode
+//@   ensures old(rl.nodesPerCurrentLineCount) == 1 && !old(structuredRuleName(ruleNameText(lexBytes(rl.ruleNameLex)))) && lex.lexEventType != lexeme.LiteralBegin
+//@           ==> panics && typeis(pv, errors.ErrorCode) && unbox(pv, errors.ErrorCode) == errors.ErrIncorrectRuleValueType
+//@   ensures old(rl.nodesPerCurrentLineCount) == 1 && !old(structuredRuleName(ruleNameText(lexBytes(rl.ruleNameLex)))) && lex.lexEventType == lexeme.LiteralBegin
+//@           ==> normal && boundis(rl.stateFunc, ruleLoader, "ruleValueLiteral")
+
+// the annotation grammar of the rule loader: `{ name: value, ... }` then an optional
+// note; line ends are transparent (C13), anything else is a loader error
+//@ func (*ruleLoader).begin(lex)
+//@   props C13 C08
+//@   requires rl != nil
+//@   maypanic
+//@   modifies rl.stateFunc
+//@   ensures panics <==> !(lex.lexEventType == lexeme.NewLine || lex.lexEventType == lexeme.InlineAnnotationTextBegin || lex.lexEventType == lexeme.MultiLineAnnotationTextBegin || lex.lexEventType == lexeme.ObjectBegin)
+//@   ensures lex.lexEventType == lexeme.NewLine ==> rl.stateFunc == old(rl.stateFunc)
+//@   ensures lex.lexEventType == lexeme.InlineAnnotationTextBegin || lex.lexEventType == lexeme.MultiLineAnnotationTextBegin ==> boundis(rl.stateFunc, ruleLoader, "commentTextEnd")
+//@   ensures lex.lexEventType == lexeme.ObjectBegin ==> boundis(rl.stateFunc, ruleLoader, "ruleKeyOrObjectEnd")
+//@   ensures panics ==> typeis(pv, errors.ErrorCode) && unbox(pv, errors.ErrorCode) == errors.ErrLoader
+//@ func (*ruleLoader).commentTextBegin(lex)
+//@   props C13 C08
+//@   requires rl != nil
+//@   maypanic
+//@   modifies rl.stateFunc
+//@   ensures panics <==> !(lex.lexEventType == lexeme.NewLine || lex.lexEventType == lexeme.InlineAnnotationTextBegin || lex.lexEventType == lexeme.MultiLineAnnotationTextBegin)
+//@   ensures lex.lexEventType == lexeme.NewLine ==> rl.stateFunc == old(rl.stateFunc)
+//@   ensures lex.lexEventType == lexeme.InlineAnnotationTextBegin || lex.lexEventType == lexeme.MultiLineAnnotationTextBegin ==> boundis(rl.stateFunc, ruleLoader, "commentTextEnd")
+//@   ensures panics ==> typeis(pv, errors.ErrorCode) && unbox(pv, errors.ErrorCode) == errors.ErrLoader
+//@ func (*ruleLoader).ruleKeyOrObjectEnd(lex)
+//@   props C13 C08
+//@   requires rl != nil
+//@   maypanic
+//@   modifies rl.stateFunc, rl.ruleNameLex
+//@   ensures panics <==> !(lex.lexEventType == lexeme.ObjectKeyBegin || lex.lexEventType == lexeme.NewLine || lex.lexEventType == lexeme.ObjectKeyEnd || lex.lexEventType == lexeme.ObjectEnd)
+//@   ensures lex.lexEventType == lexeme.ObjectKeyBegin || lex.lexEventType == lexeme.NewLine ==> rl.stateFunc == old(rl.stateFunc) && rl.ruleNameLex == old(rl.ruleNameLex)
+//@   ensures lex.lexEventType == lexeme.ObjectKeyEnd ==> rl.ruleNameLex == lex && boundis(rl.stateFunc, ruleLoader, "ruleValueBegin")
+//@   ensures lex.lexEventType == lexeme.ObjectEnd ==> boundis(rl.stateFunc, ruleLoader, "commentTextBegin")
+//@   ensures panics ==> typeis(pv, errors.ErrorCode) && unbox(pv, errors.ErrorCode) == errors.ErrLoader
+//@ func (*ruleLoader).objectEndAfterRuleName(lex)
+//@   props C13 C08
+//@   requires rl != nil
+//@   maypanic
+//@   modifies rl.stateFunc, rl.ruleNameLex
+//@   ensures panics <==> !(lex.lexEventType == lexeme.ObjectKeyBegin || lex.lexEventType == lexeme.ObjectValueEnd || lex.lexEventType == lexeme.NewLine || lex.lexEventType == lexeme.ObjectKeyEnd || lex.lexEventType == lexeme.ObjectEnd)
+//@   ensures lex.lexEventType == lexeme.ObjectKeyBegin || lex.lexEventType == lexeme.ObjectValueEnd || lex.lexEventType == lexeme.NewLine ==> rl.stateFunc == old(rl.stateFunc) && rl.ruleNameLex == old(rl.ruleNameLex)
+//@   ensures lex.lexEventType == lexeme.ObjectKeyEnd ==> rl.ruleNameLex == lex && boundis(rl.stateFunc, ruleLoader, "ruleValueBegin")
+//@   ensures lex.lexEventType == lexeme.ObjectEnd ==> boundis(rl.stateFunc, ruleLoader, "commentTextBegin")
+//@ func (*ruleLoader).ruleValueBegin(lex)
+//@   props C08
+//@   requires rl != nil
+//@   maypanic
+//@   modifies rl.stateFunc
+//@   ensures panics <==> lex.lexEventType != lexeme.ObjectValueBegin
+//@   ensures normal ==> boundis(rl.stateFunc, ruleLoader, "ruleValue")
+//@ func (*ruleLoader).ruleValueEnd(lex)
+//@   props C08
+//@   requires rl != nil
+//@   maypanic
+//@   modifies rl.stateFunc
+//@   ensures panics <==> !(lex.lexEventType == lexeme.ObjectValueEnd || lex.lexEventType == lexeme.MixedValueEnd)
+//@   ensures lex.lexEventType == lexeme.ObjectValueEnd ==> boundis(rl.stateFunc, ruleLoader, "ruleKeyOrObjectEnd")
+//@   ensures lex.lexEventType == lexeme.MixedValueEnd ==> boundis(rl.stateFunc, ruleLoader, "objectEndAfterRuleName")
+//@ func (*ruleLoader).endOfLoading(lex)
+//@   props C08
+//@   maypanic
+//@   ensures panics && typeis(pv, errors.ErrorCode) && unbox(pv, errors.ErrorCode) == errors.ErrLoader
